@@ -368,7 +368,7 @@ Proof.
     destruct (r_control r) eqn:Ecr; try congruence;
     destruct (s_state s) eqn:Es; simpl;
       try discriminate Hpre;
-      try (destruct Hpre as [Hx Hp]; destruct Hp as [Hp|Hp]; [discriminate Hp | inv Hp; unfold seq_ge; rewrite seq_sdiff_self; reflexivity]);
+      try (destruct Hpre as [_ Hp]; destruct Hp as [Hp|Hp]; [discriminate Hp | inv Hp; unfold seq_ge; rewrite seq_sdiff_self; reflexivity]);
       try (inv Hpre; unfold seq_ge; rewrite seq_sdiff_self; reflexivity);
       try (destruct Hpre as (a0 & Ha0 & Hlt & _); inv Ha0;
            unfold tcp_sent_syn in Hlt; rewrite Es in Hlt; simpl in Hlt;
@@ -499,19 +499,21 @@ Lemma transition_ret : forall cx s ip r c al aof t s' rep,
    s_syn_unacked_in_fin_wait s' = s_syn_unacked_in_fin_wait s) \/
   (c = CRst /\ s_state s <> Listen /\ s_timer s' = s_timer s /\
    s_local_seq_no s' = s_local_seq_no s /\ same_rest s' s /\ s_tuple s' = None /\
-   ((s_state s = SynReceived /\ le_port (s_listen_endpoint s) <> 0 /\ s_state s' = Listen) \/
-    s_state s' = Closed)).
+   s_state s' = Closed) \/
+  (c = CRst /\ s_state s = SynReceived /\ le_port (s_listen_endpoint s) <> 0 /\
+   s' = tcp_set_state (upd_listen_endpoint (tcp_reset s) (s_listen_endpoint s)) Listen).
 Proof.
   intros cx s ip r c al aof t s' rep H. unfold tcp_process_transition in H. unfold same_rest.
   destruct (s_state s) eqn:Es; destruct c eqn:Ec; try discriminate H;
     try (inv H; left; split; [apply same_conn_refl | auto]);
-    try (inv H; right; simpl; rewrite ?Es; repeat split; auto; congruence);
+    try (inv H; right; left; simpl; rewrite ?Es; repeat split; auto; congruence);
     try (destruct aof; discriminate H).
   - (* SynSent, Syn *)
     destruct (is_some (r_ack_number r)); discriminate H.
   - (* SynReceived, Rst *)
-    destruct (Z.eqb_spec (le_port (s_listen_endpoint s)) 0); simpl in H; inv H;
-      right; simpl; rewrite ?Es; repeat split; auto; try congruence.
+    destruct (Z.eqb_spec (le_port (s_listen_endpoint s)) 0); simpl in H; inv H.
+    + right; left; simpl; rewrite ?Es; repeat split; auto; try congruence.
+    + right; right; repeat split; auto.
   - (* LastAck, None *)
     destruct aof; [discriminate H|]. destruct ((al =? 0) && rb_is_empty (s_tx_buffer s)); [|discriminate H].
     destruct (tcp_challenge_ack_reply cx s ip r) as [s1 p] eqn:E. inv H.
@@ -864,6 +866,47 @@ Qed.
 
 Lemma pos_or_zero : forall al, 0 <= al -> (if al >? 0 then al else 0) = al.
 Proof. intros. destruct (Z.gtb_spec al 0); lia. Qed.
+
+(* reset() *)
+Lemma reset_spec : forall s,
+  s_state (tcp_reset s) = Closed /\ s_local_seq_no (tcp_reset s) = 0 /\
+  rb_len (s_tx_buffer (tcp_reset s)) = 0 /\ rb_cap (s_tx_buffer (tcp_reset s)) = rb_cap (s_tx_buffer s) /\
+  s_syn_unacked_in_fin_wait (tcp_reset s) = false /\ s_tuple (tcp_reset s) = None /\
+  s_timer (tcp_reset s) = TIdle None.
+Proof. intros. unfold tcp_reset. simpl. auto 10. Qed.
+
+Lemma seq_wf_0 : seq_wf 0.
+Proof. unfold seq_wf. rewrite seq_modulus_val. lia. Qed.
+
+Lemma inv_reset : forall s g, inv s g -> inv (tcp_reset s) g.
+Proof.
+  intros s g (HJ & Hw & Hg & Htx & Htw & Htu & Hfl & Htc).
+  destruct (reset_spec s) as (R1 & R2 & R3 & R4 & R5 & R6 & R7).
+  unfold inv, J, tx_len. rewrite R1, R2, R3, R4, R5, R6, R7.
+  unfold tx_len in Htx.
+  isplit; auto; try discriminate; try lia; try apply seq_wf_0; try congruence.
+Qed.
+
+(* an acceptable RST in SYN-RECEIVED returns a listener to a pristine LISTEN *)
+Lemma seg_post_rst_listen : forall cx s g r,
+  inv s g -> r_control r = CRst ->
+  (s_state s <> Listen -> s_state s <> SynSent ->
+   rfc_acceptable (rcv_nxt s) (rcv_wnd_end s) (r_seq_number r) (l_len (r_payload r)) = true) ->
+  s_state s = SynReceived -> le_port (s_listen_endpoint s) <> 0 ->
+  seg_post cx s g r (tcp_set_state (upd_listen_endpoint (tcp_reset s) (s_listen_endpoint s)) Listen).
+Proof.
+  intros cx s g r Hinv Hc Hacc Es Hp.
+  set (s' := tcp_set_state (upd_listen_endpoint (tcp_reset s) (s_listen_endpoint s)) Listen).
+  assert (Hst : s_state s' = Listen) by reflexivity.
+  unfold seg_post. rewrite ghost_seg_same by (intros E; congruence). rewrite Hst, Es.
+  split; [|split; [|split; intros E; discriminate E]].
+  - right. unfold seg_allowed. do 6 right. left. unfold rst_acceptable.
+    isplit; auto. apply Hacc; congruence.
+  - pose proof (inv_reset s g Hinv) as (HJ & Hw & Hg & Htx & Htw & Htu & Hfl & Htc).
+    destruct (reset_spec s) as (R1 & R2 & R3 & R4 & R5 & R6 & R7).
+    unfold inv, J, tx_len in *. unfold s'. simpl. rewrite R2, R3, R4, R5, R7 in *.
+    isplit; auto; try discriminate; try lia; try congruence.
+Qed.
 
 Ltac flag_goal :=
   let Hx := fresh "Hx" in
@@ -1238,10 +1281,11 @@ Proof.
     eapply seg_post_cont; eauto.
     eapply tail_compose; eauto.
   - inv H. apply transition_ret in E4.
-    destruct E4 as [(F1 & F2 & F3) | (F1 & F2 & F3 & F4 & F5 & F6 & F7)].
+    destruct E4 as [(F1 & F2 & F3) | [(F1 & F2 & F3 & F4 & F5 & F6 & F7) | (F1 & F2 & F3 & F4)]].
     + apply seg_post_unchanged; auto. left; exact F2.
     + eapply seg_post_rst; eauto.
       rewrite F1 in Hq. simpl in Hq. exact Hq.
+    + rewrite F1 in Hq. simpl in Hq. rewrite F4. eapply seg_post_rst_listen; eauto.
 Qed.
 
 (* ================================================================== *)
@@ -1287,26 +1331,6 @@ Proof.
   apply rb_enqueue_pass_len in E1; [|assumption]. destruct E1 as (A1 & A2 & A3 & A4).
   apply rb_enqueue_pass_len in E2; [|assumption]. destruct E2 as (B1 & B2 & B3 & B4).
   lia.
-Qed.
-
-(* reset() *)
-Lemma reset_spec : forall s,
-  s_state (tcp_reset s) = Closed /\ s_local_seq_no (tcp_reset s) = 0 /\
-  rb_len (s_tx_buffer (tcp_reset s)) = 0 /\ rb_cap (s_tx_buffer (tcp_reset s)) = rb_cap (s_tx_buffer s) /\
-  s_syn_unacked_in_fin_wait (tcp_reset s) = false /\ s_tuple (tcp_reset s) = None /\
-  s_timer (tcp_reset s) = TIdle None.
-Proof. intros. unfold tcp_reset. simpl. auto 10. Qed.
-
-Lemma seq_wf_0 : seq_wf 0.
-Proof. unfold seq_wf. rewrite seq_modulus_val. lia. Qed.
-
-Lemma inv_reset : forall s g, inv s g -> inv (tcp_reset s) g.
-Proof.
-  intros s g (HJ & Hw & Hg & Htx & Htw & Htu & Hfl & Htc).
-  destruct (reset_spec s) as (R1 & R2 & R3 & R4 & R5 & R6 & R7).
-  unfold inv, J, tx_len. rewrite R1, R2, R3, R4, R5, R6, R7.
-  unfold tx_len in Htx.
-  isplit; auto; try discriminate; try lia; try apply seq_wf_0; try congruence.
 Qed.
 
 (* invariant transported along a change that leaves the connection fields alone *)
